@@ -488,21 +488,29 @@ def gen_edit(rng, obj, allow_absent=True):
     op = rng.choice(["setnd", "setnd", "upd", "setnds", "scale", "addmass", "removemass", "setmass", "setmf"])
     fac = lambda: rng.choice([0.5, 0.75, 1.0, 1.25, 1.5, 2.0])  # noqa: E731
     special = lambda v: rng.choice([v, v, v, 0.0, 1e-50])  # noqa: E731
+    new = [n for n in ("XE135", "PU239", "AM241", "HE4", "SM149") if n not in nucs]
+    newval = lambda: rng.choice([1e-6, 0.00048828125, 0.001953125, 0.0])  # noqa: E731
     if op == "setnd":
         n = rng.choice(nucs)
-        if allow_absent and rng.random() < 0.1:
-            return ("setnd", {"n": "PU239" if "PU239" not in nucs else "AM241", "v": rng.choice([0.0, 0.001953125])})
+        if allow_absent and new and rng.random() < 0.3:
+            return ("setnd", {"n": rng.choice(new), "v": newval()})
         base = cur[n] if cur[n] > 0 else 0.0009765625
         return ("setnd", {"n": n, "v": special(base * fac())})
     if op == "upd":
         ks = rng.sample(nucs, min(len(nucs), rng.randint(1, 3)))
         d = {n: special((cur[n] or 0.0009765625) * fac()) for n in ks}
-        if allow_absent and lvl in ("block", "component") and rng.random() < 0.2:
-            d["HE4"] = rng.choice([0.0, 0.00048828125])
+        if allow_absent and new and rng.random() < 0.3:
+            # first introduction of a nuclide at this level (goes to EVERY child, void gaps included)
+            for n in rng.sample(new, min(len(new), rng.randint(1, 2))):
+                d[n] = newval()
+            if rng.random() < 0.5:
+                d = dict(reversed(list(d.items())))
         return ("upd", {"d": d})
     if op == "setnds":
         ks = rng.sample(nucs, max(1, min(len(nucs), rng.randint(1, len(nucs)))))
         d = {n: special((cur[n] or 0.0009765625) * fac()) for n in ks}
+        if allow_absent and new and rng.random() < 0.3:
+            d[rng.choice(new)] = newval()
         if lvl == "component" and rng.random() < 0.25:
             d = {}
         return ("setnds", {"d": d})
@@ -533,6 +541,14 @@ def gen_edit(rng, obj, allow_absent=True):
         f = min(0.4, mf0[n] * rng.choice([0.5, 1.0, 1.5]))
         d[n] = f
         tot += f
+    if allow_absent and new and rng.random() < 0.35:
+        # blend in nuclides that are NEW to the object (component level: accepted; composite level: refused)
+        if rng.random() < 0.4:
+            d = {}
+        for n in rng.sample(new, min(len(new), rng.randint(1, 2))):
+            d[n] = rng.choice([0.1, 0.05, 0.0625])
+        if rng.random() < 0.5:
+            d = dict(reversed(list(d.items())))
     return ("setmf", {"d": d})
 
 
@@ -622,7 +638,8 @@ def before_state(obj):
     nucs = sorted(obj.getNuclides())
     return {"nucs": nucs, "nd": {n: float(obj.getNumberDensity(n)) for n in nucs},
             "mass": {n: float(obj.getMass(n)) for n in nucs}, "rho": None if comp_empty(obj) else dens(obj),
-            "mf": dict(obj.getMassFracs()) if nucs else {}, "vol": float(obj.getVolume())}
+            "mf": dict(obj.getMassFracs()) if nucs else {}, "vol": float(obj.getVolume()),
+            "mtot": float(obj.getMass())}
 
 
 def edit_oracle(obj, op, a, res, bef, fail):
@@ -689,6 +706,8 @@ def edit_oracle(obj, op, a, res, bef, fail):
             return
         if bef["rho"] is not None and not fclose(dens(obj), bef["rho"], tol=1e-8):
             fail(f"setmf-density-{lvl}", "setMassFracs keeps the total density", dens(obj), bef["rho"])
+        if bef.get("mtot") is not None and not fclose(float(obj.getMass()), bef["mtot"], tol=1e-8):
+            fail(f"setmf-mass-{lvl}", "setMassFracs keeps the total mass", float(obj.getMass()), bef["mtot"])
         mf1 = obj.getMassFracs()
         for n, f in a["d"].items():
             if not fclose(mf1.get(n, 0.0), f, tol=1e-8):
@@ -760,7 +779,9 @@ def edit_sequence(ctx, mir, assemblies, paths, targets, nedits, label, resync=6)
         mir.emit(model_line(mir, paths[id(obj)], op, a),
                  expect_result(ctx, f"{label}: edit accepted/refused", case, res))
         # compare the edited object, its parent chain, and one child
-        nucs = pick_nucs(rng, obj, 5, extra=[a["n"]] if "n" in a and a["n"] in obj.getNuclides() else [])
+        touched = ([a["n"]] if "n" in a else []) + (list(a["d"]) if "d" in a else [])
+        amb0 = ambiguous(obj, touched)
+        nucs = pick_nucs(rng, obj, 5, extra=[n for n in touched if n in obj.getNuclides() and n not in amb0][:4])
         chain = [obj]
         p = obj.parent
         while p is not None and id(p) in paths:
@@ -1011,8 +1032,13 @@ def gen_block(rng, name, height):
     cool = rng.choice(COOLANTS)
     fuel = components.Circle("fuel", rng.choice(FUEL_MATS), 25.0, tf, od=common.dyadic(rng, 0.5, 0.75, 4), id=0.0, mult=mult)
     clad = components.Circle("clad", rng.choice(STRUCT_MATS), 25.0, ts, od=1.0, id=0.875, mult=mult)
-    bond = components.Circle("bond", cool, ts, ts, od="clad.id", id="fuel.od", mult="fuel.mult",
-                             components={"fuel": fuel, "clad": clad})
+    if rng.random() < 0.5:
+        # a void gap of sizeable volume (no nuclides) between fuel and clad
+        bond = components.Circle("gap", "Void", ts, ts, od="clad.id", id="fuel.od", mult="fuel.mult",
+                                 components={"fuel": fuel, "clad": clad})
+    else:
+        bond = components.Circle("bond", cool, ts, ts, od="clad.id", id="fuel.od", mult="fuel.mult",
+                                 components={"fuel": fuel, "clad": clad})
     comps = [fuel, bond, clad]
     if rng.random() < 0.7:
         comps.append(components.Helix("wire", rng.choice(STRUCT_MATS), 25.0, ts, od=0.125, id=0.0,
@@ -1088,6 +1114,8 @@ def run_generated(ctx):
             continue
         made += 1
         ctx.count(f"generated assembly, symmetry factor {a.getSymmetryFactor():g}")
+        ctx.count("generated blocks with a void gap", sum(1 for b in a for c in b if c.name == "gap"))
+        ctx.count("generated blocks without a void gap", sum(1 for b in a if not any(c.name == "gap" for c in b)))
         mir = Mirror()
         paths = mir.load([a], extra_nucs=("PU239", "AM241", "HE4"))
         blocks = list(a)
